@@ -14,6 +14,20 @@
                      without leader fails the message, otherwise it is put on the wire in
                      that partition and acknowledged.
 
+     Recover(L2)     (Dynamic scenarios) every partition of the topic was leaderless while the first
+                     p1 messages were handled; now leaders are back for all partitions but L2.  The
+                     client notices on its own: WritablePartitions refreshes the metadata whenever its
+                     cached list is empty, the partition worker whenever it has no leader.
+
+   Circuit breakers as in the code: topicProducer.breaker and partitionProducer.breaker are
+   breaker.New(3, 1, 10s) - the third ERROR returned by the wrapped function opens them and they
+   stay open for the rest of a (short) scenario.  In partitionMessage the wrapped function only
+   fetches the partition list: an EMPTY writable list is a valid answer, not an error (the
+   ErrLeaderNotAvailable for it is produced outside the breaker), so the topic breaker never
+   opens here.  A partition worker's breaker counts failed leader look-ups of ITS partition.
+   CountEmptyAsError = TRUE models a producer that charges the empty list to the topic breaker:
+   TLC is then EXPECTED to find RecoveredRouted violated.
+
    The clauses of the property are invariants; terminal states are emitted as scenarios
    that harness/inpkg/partitioner_test.go runs on a real AsyncProducer.                  *)
 EXTENDS PartitionerOps, TLC, Json
@@ -22,10 +36,16 @@ CONSTANTS
   MaxNP,      \* partitions per topic: 1..MaxNP
   MaxMsgs,    \* messages per scenario
   PKs,        \* partitioner kinds explored
+  Dynamic,    \* TRUE: all partitions leaderless for the first p1 messages (one input repeated), then recovery, then P2 more
+  P1s,        \* Dynamic: lengths of the all-leaderless phase
+  P2,         \* Dynamic: messages after the recovery
+  CountEmptyAsError,   \* TRUE: an empty candidate list counts as an error of the topic breaker (NOT what the code does)
   EmitCases
 
-VARIABLES np, L, pk, cursor, msgs
-vars == <<np, L, pk, cursor, msgs>>
+VARIABLES np, L, pk, cursor, msgs, p1, flipped, L0, tperr, pperr
+vars == <<np, L, pk, cursor, msgs, p1, flipped, L0, tperr, pperr>>
+
+BreakerThreshold == 3
 
 \* consistency declaration of each kind: static = RequiresConsistency(), dyn = rule of
 \* MessageRequiresConsistency ("none": DynamicConsistencyPartitioner not implemented)
@@ -47,7 +67,13 @@ ScriptRet(sc, n) == CASE sc = "first" -> 0 [] sc = "last" -> n - 1 [] sc = "neg"
 
 \* input alphabet: [keyed, part (manual), sc (custom), want (hash, keyed: the index the key hashes to)]
 In(keyed, part, sc, want) == [keyed |-> keyed, part |-> part, sc |-> sc, want |-> want]
+DynInputs ==      \* reduced alphabet of the Dynamic scenarios
+  CASE pk = "manual" -> {In(TRUE, p, "-", -1) : p \in {0, np - 1}}
+    [] pk \in {"hash", "refhash"} -> {In(TRUE, 0, "-", w) : w \in {0, np - 1}} \cup {In(FALSE, 0, "-", -1)}
+    [] pk \in {"roundrobin", "random"} -> {In(FALSE, 0, "-", -1)}
+    [] OTHER -> {In(k, 0, sc, -1) : k \in BOOLEAN, sc \in {"first", "last"}}
 Inputs ==
+  IF Dynamic THEN DynInputs ELSE
   CASE pk = "manual" -> {In(TRUE, p, "-", -1) : p \in -1 .. np} \cup {In(FALSE, np - 1, "-", -1)}
     [] pk \in {"hash", "refhash"} -> {In(TRUE, 0, "-", w) : w \in 0 .. (np - 1)} \cup {In(FALSE, 0, "-", -1)}
     [] pk \in {"roundrobin", "random"} -> {In(k, 0, "-", -1) : k \in BOOLEAN}
@@ -57,9 +83,15 @@ Init ==
   /\ np \in 1 .. MaxNP
   /\ L \in SUBSET (0 .. (MaxNP - 1))
   /\ L \subseteq AllParts(np)
+  /\ Dynamic => L = AllParts(np)
   /\ pk \in PKs
   /\ cursor = 0
   /\ msgs = <<>>
+  /\ p1 \in (IF Dynamic THEN P1s ELSE {MaxMsgs})
+  /\ flipped = FALSE
+  /\ L0 = L
+  /\ tperr = 0
+  /\ pperr = [p \in 0 .. (MaxNP - 1) |-> 0]
 
 \* ---- topicProducer.partitionMessage, as the code does it
 PartitionMessage(m) ==
@@ -77,35 +109,57 @@ PartitionMessage(m) ==
              [] OTHER -> 0
       perr == IsCustom(pk) /\ m.sc = "err"
       base == [in |-> m, req |-> req, n |-> n, called |-> n > 0, anyc |-> anyc, c |-> c, perr |-> perr,
-               stage |-> "failed", target |-> -1, wire |-> -1, out |-> "error", why |-> "-"]
+               stage |-> "failed", target |-> -1, wire |-> -1, out |-> "error", why |-> "-",
+               ph |-> (IF flipped THEN 2 ELSE 1), Lat |-> L]
   IN
-  IF n = 0 THEN [base EXCEPT !.why = "no_partition", !.c = -1, !.anyc = FALSE]
+  IF tperr >= BreakerThreshold THEN [base EXCEPT !.why = "topic_breaker_open", !.called = FALSE, !.c = -1, !.anyc = FALSE]
+  ELSE IF n = 0 THEN [base EXCEPT !.why = "no_partition", !.c = -1, !.anyc = FALSE]
   ELSE IF perr THEN [base EXCEPT !.why = "partitioner_error"]
   ELSE IF anyc THEN [base EXCEPT !.stage = "partitioned", !.target = -2, !.out = "-"]   \* some writable partition
   ELSE IF c < 0 \/ c >= n THEN [base EXCEPT !.why = "invalid_partition"]
   ELSE [base EXCEPT !.stage = "partitioned", !.target = Nth(S, c), !.out = "-"]
 
 TpPartition(m) ==
-  /\ Len(msgs) < MaxMsgs
+  /\ IF ~Dynamic THEN Len(msgs) < MaxMsgs
+     ELSE IF ~flipped THEN Len(msgs) < p1 /\ (IF msgs = <<>> THEN TRUE ELSE m = msgs[1].in)
+     ELSE Len(msgs) < p1 + P2
   /\ msgs' = Append(msgs, PartitionMessage(m))
   /\ cursor' = IF pk = "roundrobin" /\ PartitionMessage(m).called
                THEN (IF cursor >= PartitionMessage(m).n THEN 0 ELSE cursor) + 1 ELSE cursor
-  /\ UNCHANGED <<np, L, pk>>
+  \* the function handed to tp.breaker.Run returns the error of client.Partitions / WritablePartitions only
+  /\ tperr' = IF CountEmptyAsError /\ tperr < BreakerThreshold /\ PartitionMessage(m).n = 0 THEN tperr + 1 ELSE tperr
+  /\ UNCHANGED <<np, L, pk, p1, flipped, L0, pperr>>
+
+\* the leaders come back (for all partitions but L2) while the producer is idle
+Recover(L2) ==
+  /\ Dynamic /\ ~flipped
+  /\ Len(msgs) = p1
+  /\ \A i \in DOMAIN msgs : msgs[i].stage \in {"failed", "acked"}
+  /\ L2 \subseteq AllParts(np) /\ L2 # AllParts(np)
+  /\ L' = L2
+  /\ flipped' = TRUE
+  /\ UNCHANGED <<np, pk, cursor, msgs, p1, L0, tperr, pperr>>
 
 \* ---- partitionProducer / brokerProducer of the chosen partition
 PpDeliver(i) ==
   /\ msgs[i].stage = "partitioned"
   \* FIFO per partition: no earlier message for the same partition is still waiting
   /\ \A j \in 1 .. (i - 1) : ~(msgs[j].stage = "partitioned" /\ msgs[j].target = msgs[i].target)
-  /\ msgs' = [msgs EXCEPT ![i] =
-        IF msgs[i].target \in L
-        THEN [@ EXCEPT !.stage = "failed", !.out = "error", !.why = "leader_not_available"]
-        ELSE [@ EXCEPT !.stage = "acked", !.out = "success", !.wire = msgs[i].target]]
-  /\ UNCHANGED <<np, L, pk, cursor>>
+  /\ LET t == msgs[i].target
+         open == t >= 0 /\ pperr[t] >= BreakerThreshold      \* pp.updateLeader runs inside pp.breaker
+     IN
+     /\ msgs' = [msgs EXCEPT ![i] =
+           IF open THEN [@ EXCEPT !.stage = "failed", !.out = "error", !.why = "partition_breaker_open"]
+           ELSE IF t \in L
+           THEN [@ EXCEPT !.stage = "failed", !.out = "error", !.why = "leader_not_available"]
+           ELSE [@ EXCEPT !.stage = "acked", !.out = "success", !.wire = t]]
+     /\ pperr' = IF ~open /\ t \in L THEN [pperr EXCEPT ![t] = @ + 1] ELSE pperr
+  /\ UNCHANGED <<np, L, pk, cursor, p1, flipped, L0, tperr>>
 
 Next ==
   \/ \E m \in Inputs : TpPartition(m)
   \/ \E i \in DOMAIN msgs : PpDeliver(i)
+  \/ \E L2 \in SUBSET (0 .. (MaxNP - 1)) : Recover(L2)
 
 Spec == Init /\ [][Next]_vars
 
@@ -114,30 +168,43 @@ Done(e) == e.stage \in {"failed", "acked"}
 \* keyed messages of consistency-requiring partitioners are offered all partitions, others only writable ones
 OfferedRule ==
   \A i \in DOMAIN msgs : LET e == msgs[i] info == Info(pk) IN
-     e.n = Cardinality(Offered(np, L, info.static, info.dyn, e.in.keyed))
+     e.n = Cardinality(Offered(np, e.Lat, info.static, info.dyn, e.in.keyed))
 \* a message is sent to the partition the partitioner chose (index into the offered, sorted list)
 SentToChosen ==
   \A i \in DOMAIN msgs : LET e == msgs[i] info == Info(pk) IN
      e.wire # -1 =>
         /\ e.called /\ ~e.perr
         /\ e.anyc => e.wire = -2       \* the generator's choice: some partition of the offered (writable) list
-        /\ ~e.anyc => (e.c \in 0 .. (e.n - 1) /\ e.wire = Nth(Offered(np, L, info.static, info.dyn, e.in.keyed), e.c))
-        /\ e.wire \notin L
+        /\ ~e.anyc => (e.c \in 0 .. (e.n - 1) /\ e.wire = Nth(Offered(np, e.Lat, info.static, info.dyn, e.in.keyed), e.c))
+        /\ e.wire \notin e.Lat
 \* out of range / partitioner error / no partition available: error event and never on the wire
 InvalidFailsUnsent ==
   \A i \in DOMAIN msgs : LET e == msgs[i] IN
      (e.n = 0 \/ e.perr \/ (~e.anyc /\ (e.c < 0 \/ e.c >= e.n))) => (e.out = "error" /\ e.wire = -1 /\ e.stage = "failed")
 \* the partitioner is never asked to choose among zero partitions
 NeverOfferedNothing == \A i \in DOMAIN msgs : msgs[i].called => msgs[i].n > 0
-TypeOK == cursor \in 0 .. (MaxNP + 1)
+\* whenever partitions are available for a message the partitioner is asked, and once the leaders are back
+\* a message with a valid choice is sent - unless the worker of that very partition had its three failed
+\* leader look-ups (the documented condition of its breaker)
+FailedLookups(p, i) == Cardinality({j \in 1 .. (i - 1) : msgs[j].target = p /\ msgs[j].why = "leader_not_available"})
+RecoveredRouted ==
+  \A i \in DOMAIN msgs : LET e == msgs[i] IN
+     /\ e.n > 0 => e.called
+     /\ (Done(e) /\ e.stage = "failed" /\ e.target >= 0 /\ e.target \notin e.Lat) => FailedLookups(e.target, i) >= BreakerThreshold
+     /\ e.why # "topic_breaker_open"
+TypeOK == cursor \in 0 .. (MaxNP + 1) /\ tperr \in 0 .. BreakerThreshold
 
 (* ---------- role 2: terminal states as scenarios ---------- *)
 SetSeq(S) == [k \in 1 .. Cardinality(S) |-> Nth(S, k - 1)]
+\* expected outcome; "any" when the generator chooses among partitions one of whose workers has its breaker open
+MayHitOpenBreaker(e) ==
+  e.anyc /\ e.stage = "acked" /\ \E p \in Offered(np, e.Lat, Info(pk).static, Info(pk).dyn, e.in.keyed) : pperr[p] >= BreakerThreshold
 MsgJson(e) == [keyed |-> e.in.keyed, part |-> e.in.part, sc |-> e.in.sc, want |-> e.in.want,
-               xn |-> e.n, xout |-> e.out, xtarget |-> e.target, xwhy |-> e.why]
+               xn |-> e.n, xout |-> (IF MayHitOpenBreaker(e) THEN "any" ELSE e.out), xtarget |-> e.target, xwhy |-> e.why]
 Emit ==
-  (EmitCases /\ Len(msgs) = MaxMsgs /\ \A i \in DOMAIN msgs : Done(msgs[i])) =>
-     PrintT(<<"CASE", ToJson([fam |-> "prod", np |-> np, leaderless |-> SetSeq(L), pk |-> pk,
+  (EmitCases /\ (IF Dynamic THEN flipped /\ Len(msgs) = p1 + P2 ELSE Len(msgs) = MaxMsgs) /\ \A i \in DOMAIN msgs : Done(msgs[i])) =>
+     PrintT(<<"CASE", ToJson([fam |-> "prod", np |-> np, leaderless |-> SetSeq(L0), pk |-> pk,
+                              flip |-> flipped, p1 |-> p1, leaderless2 |-> SetSeq(L),
                               static |-> Info(pk).static, dyn |-> Info(pk).dyn,
                               msgs |-> [i \in 1 .. Len(msgs) |-> MsgJson(msgs[i])]])>>)
 =============================================================================
